@@ -45,6 +45,33 @@ where
             }
             json!({"results": out})
         }
+        "smile_raw" => {
+            // any JSON document rendered as Smile by plain serde_smile, then read by the
+            // Conjure Smile deserializers
+            let mut out = vec![];
+            for d in req["docs"].as_array().unwrap() {
+                let doc = d.as_str().unwrap();
+                let bytes = match serde_json::from_str::<Value>(doc).ok().and_then(|v| serde_smile::to_vec(&v).ok()) {
+                    Some(b) => b,
+                    None => {
+                        out.push(json!({"skip": "no smile rendering"}));
+                        continue;
+                    }
+                };
+                let c = std::panic::catch_unwind(|| conjure_serde::smile::client_from_slice::<T>(&bytes).map_err(|e| e.to_string()));
+                let s = std::panic::catch_unwind(|| conjure_serde::smile::server_from_slice::<T>(&bytes).map_err(|e| e.to_string()));
+                let c = match c {
+                    Ok(r) => one(r, name),
+                    Err(_) => json!({"ok": false, "panic": true}),
+                };
+                let s = match s {
+                    Ok(r) => one(r, name),
+                    Err(_) => json!({"ok": false, "panic": true}),
+                };
+                out.push(json!({"c": c, "s": s}));
+            }
+            json!({"results": out})
+        }
         "smile" => {
             // valid documents only: value -> Smile -> value (client and server) -> JSON
             let mut out = vec![];
